@@ -164,6 +164,7 @@ package turn
 
 //@ func (*Client).handleSTUNMessage
 //@   requires clientReady(c) && !held(c.mutex) && !rheld(c.mutex) && (c.relayedConn != nil ==> c.relayedConn.log != nil) && (c.tcpAllocation != nil ==> c.tcpAllocation.log != nil)
+//@   at-call (*stun.Message).Decode assert [C05,C12,C13:decodes-a-copy-of-the-datagram] len(recv.Raw) == len(data) && (forall i :: 0 <= i && i < len(data) ==> recv.Raw[i] == data[i]) && (len(data) == 0 || base(recv.Raw) != base(data))
 //@   at-call (*TransactionMap).Find assert [C12:lookup-under-lock] held(c.mutexTrMap) && arg0 == trKey
 //@   at-call (*TransactionMap).Delete assert [C12:claim-under-lock] held(c.mutexTrMap) && arg0 == trKey && has(c.trMap.trMap, trKey) && c.trMap.trMap[trKey] == tr
 //@   at-call (*Transaction).StopRtxTimer assert [C12:stop-own-timer] recv == tr && has(c.trMap.trMap, trKey) && c.trMap.trMap[trKey] == tr
